@@ -38,6 +38,43 @@ pub struct Net {
     pub boot: SocketAddrV4,
 }
 
+/// Like `join_all`, but call `i` is only created (and so only reaches the actor) at virtual time `starts[i]`.
+pub fn staggered<T: 'static>(w: &World, starts: &[u64], make: impl Fn(usize) -> std::pin::Pin<Box<dyn Future<Output = T>>>, max: u64) -> Vec<Option<T>> {
+    let mut tasks: Vec<Option<Task<T>>> = (0..starts.len()).map(|_| None).collect();
+    let end_all = starts.iter().copied().max().unwrap_or(0).max(w.now()).saturating_add(max);
+    loop {
+        let now = w.now();
+        for j in 0..starts.len() {
+            if tasks[j].is_none() && now >= starts[j] {
+                tasks[j] = Some(Task::new(now, make(j)));
+            }
+        }
+        let mut all = true;
+        for tk in tasks.iter_mut() {
+            match tk {
+                Some(tk) => {
+                    if !tk.poll(now) {
+                        all = false;
+                    }
+                }
+                None => all = false,
+            }
+        }
+        if all || now >= end_all {
+            break;
+        }
+        let next_start = (0..starts.len()).filter(|j| tasks[*j].is_none()).map(|j| starts[j]).min().unwrap_or(end_all);
+        match w.step_until(next_start.max(now + 1).min(end_all)) {
+            Step::Stuck => break,
+            Step::Idle => {
+                w.run_to(next_start.min(end_all));
+            }
+            _ => {}
+        }
+    }
+    tasks.into_iter().map(|t| t.and_then(|t| t.result)).collect()
+}
+
 /// Run several futures to completion concurrently (polling after every step).
 pub fn join_all<T: 'static>(w: &World, futs: Vec<std::pin::Pin<Box<dyn Future<Output = T>>>>, max: u64) -> Vec<Option<T>> {
     let now = w.now();
